@@ -360,6 +360,7 @@ func runC15(e *Engine, r *Report, tier string) {
 		r.Fail("R4", "Tally", "", "UNRESOLVED-ANCHOR")
 	} else {
 		okQ := false
+		partial := ""
 		allCalls(tl, func(c ssa.CallInstruction) {
 			if callName(c) != "LT" {
 				return
@@ -378,8 +379,21 @@ func runC15(e *Engine, r *Report, tier string) {
 			})
 			if hit {
 				okQ = true
+				// participation = all voting power that was cast / bonded: the dividend is the plain accumulator of the
+				// votes, not an expression that takes some option's votes out of it
+				if q, ok := stripConv(a[0]).(*ssa.Call); ok && strings.HasPrefix(callName(q), "Quo") {
+					if qa := callArgs(q); len(qa) == 2 {
+						dk := regNames.ReplaceAllString(vkey(qa[0], 0), "")
+						if strings.Contains(dk, "Sub(") || strings.Contains(dk, "-") {
+							partial = dk
+						}
+					}
+				}
 			}
 		})
+		if okQ {
+			r.Check(partial == "", "R4", e.FnKey(tl)+" participation", e.Pos(tl.Pos()), "the participation compared with the quorum is the whole voting power that was cast", "the participation compared with the quorum is "+partial+": votes of some option (e.g. abstain) no longer count towards the quorum, so a proposal that reached its quorum is ended for lack of it")
+		}
 		r.Check(okQ, "R4", e.FnKey(tl)+" quorum", e.Pos(tl.Pos()), "participation is compared with the per-type quorum", "the tally does not compare participation with the quorum configured for the proposal's message type")
 	}
 
